@@ -339,12 +339,14 @@ def main(argv):
         fx = None
         if os.path.exists(os.path.join(fdir, 'qvfix.json')):
             fx = Facts(fdir, crates=('qvfix',))
+        if fx is None:
+            raise CheckBroken('fixtures facts missing')
+        from . import selftest
+        selftest.run(ctx, fx)
         if hasattr(mod, 'selftest'):
-            if fx is None:
-                raise CheckBroken('fixtures facts missing')
             mod.selftest(ctx, fx)
-            if ctx.fixture_controls['failed']:
-                raise CheckBroken('selftest: fixture controls misbehave: %s' % ctx.fixture_controls['failed'])
+        if ctx.fixture_controls['failed'] or ctx.fixture_controls['total'] < 30:
+            raise CheckBroken('selftest: fixture controls misbehave: %s' % ctx.fixture_controls)
         mod.run(ctx)
         extra = None
         if tier == 'thorough' and hasattr(mod, 'thorough'):
